@@ -6,9 +6,10 @@ Recognisers (enumerated from the tree, DESIGN.md §3):
   R-c  bool flag parameter: the in-cycle call sits under a test of the flag and passes the opposite literal
   R-d  const-generic instance: the self call passes a different constant under an equality test on the parameter
   R-f  dyn forwarders: every in-cycle edge is a virtual (trait-object) call and every function in the cycle is loop-free
-  R-g  memoised evaluation over strictly prior indices (IFT EntryIntersectionCache), with its three side conditions
+  R-g  memoised evaluation over strictly prior indices (IFT EntryIntersectionCache, found by shape), with its three side conditions
 """
 import itertools
+import sys
 import re
 
 from ..facts import Facts
@@ -376,78 +377,39 @@ def try_rf(scc):
 
 
 # ---- R-g (IFT) ---------------------------------------------------------------------------------
-EIC = "incremental_font_transfer::patchmap::EntryIntersectionCache::<'_>::"
+# Everything is found by shape and type, not by (private) name: the memo type is "the type whose methods form the cycle", the
+# memo method "the member that looks a key up in a HashMap before it calls into the cycle and inserts afterwards", the driver
+# "its only caller outside the cycle", the child field "the Vec<key> field of the element type of the memo's slice".
+IFTC = "incremental_font_transfer"
 
 
-def try_rg(scc, facts):
-    if not all(p.startswith(EIC) for p in scc.paths):
-        return None
-    ib = scc.bodies.get(EIC + "intersects")
-    if ib is None:
-        return None
-    why = []
-    # (1) memo: cache.get hit returns before compute; cache.insert follows compute on every path to return
-    gets = [(bb, t) for bb, t in ib.calls() if t.callee.endswith("HashMap::<K, V, S, A>::get")]
-    comps = [(bb, t) for bb, t in ib.calls() if t.callee == EIC + "compute_intersection"]
-    ins = [(bb, t) for bb, t in ib.calls() if t.callee.endswith("HashMap::<K, V, S, A>::insert")]
-    if len(gets) != 1 or len(comps) != 1 or len(ins) != 1:
-        return None
-    if not ib.dominates(gets[0][0], comps[0][0]):
-        return None
-    # key of get and insert is the index parameter
-    if strip_casts(expr_of(ib, gets[0][1].args[1])) != ("ref", ("param", 2)) and show(ib, expr_of(ib, gets[0][1].args[1])) != "&index":
-        return None
-    if show(ib, strip_casts(expr_of(ib, ins[0][1].args[1]))) != "index":
-        return None
-    # every return reachable from compute passes insert
-    rets = [r for r in ib.return_blocks() if r in ib.reachable_from(comps[0][0])]
-    if not rets or not all(ib.dominates(ins[0][0], r) or _passes(ib, comps[0][0], r, ins[0][0]) for r in rets):
-        return None
-    why.append("intersects(): cache.get(&index) dominates compute_intersection and cache.insert(index, ..) lies on every path from it to return")
-    # (2) the only driver evaluates every index in increasing order before any `continue`
-    drv = facts.body("incremental_font_transfer::patchmap::add_intersecting_format2_patches")
-    if drv is None:
-        return None
-    dcalls = [(bb, t) for bb, t in drv.calls() if t.callee == EIC + "intersects"]
-    if len(dcalls) != 1:
-        return None
-    cb, ct = dcalls[0]
-    nexts = [(bb, t) for bb, t in drv.calls() if t.callee.endswith("Enumerate<I> as core::iter::traits::iterator::Iterator>::next") and cb in drv.reachable_from(bb)]
-    if len(nexts) != 1:
-        return None
-    hb = nexts[0][0]
-    # all back edges into the loop header come from blocks dominated by the intersects call
-    header_chain = {hb}
-    # include goto-only predecessors that form the header
-    preds = drv.preds()
-    back = [p for p in _preds_closure(drv, hb) if hb in drv.reachable_from(p) and p in drv.reachable_from(hb)]
-    loop_preds = [p for p in preds[hb] if p in drv.reachable_from(hb)]
-    if not loop_preds or not all(drv.dominates(cb, p) for p in loop_preds):
-        return None
-    # the index argument is the enumerate counter
-    s = show(drv, strip_casts(expr_of(drv, ct.args[1])))
-    if "next(" not in s or "as Some" not in s or not s.endswith(".0"):
-        return None
-    why.append("add_intersecting_format2_patches(): intersects(order, ..) is evaluated for every enumerate() index before any "
-               "`continue` (the call dominates every back edge of the loop)")
-    # the cache type is constructed only there
-    cons = []
-    for ob in facts.all_bodies("incremental_font_transfer"):
-        for bb2, adt, variant, ops, st in adt_aggregates(ob, range(len(ob.blocks))):
-            if adt == "incremental_font_transfer::patchmap::EntryIntersectionCache":
-                cons.append(ob.path)
-    if cons != [drv.path]:
-        return None
-    why.append("EntryIntersectionCache is constructed only in that function")
-    # (3) child indices refer to prior entries only
-    dec = facts.body("incremental_font_transfer::patchmap::decode_format2_entry")
-    if dec is None:
-        return None
-    stores = [(bb, st) for bb, j, st in dec.stmts() if st[0] == "A" and st[1][1] and st[1][1][-1][0] == "f" and st[1][1][-1][2] == "child_indices"]
-    if len(stores) != 1:
-        return None
-    sbb = stores[0][0]
-    good = False
+def _rg_fail(n):
+    """which side condition of R-g failed (FV_DEBUG_RG=1 prints it); the caller only sees "not recognised"""
+    import os
+    if os.environ.get("FV_DEBUG_RG"):
+        print(f"[fv] R-g: side condition #{n} does not hold", file=sys.stderr)
+    return None
+
+
+def _rg_owner(p):
+    return re.sub(r"(::\{closure#\d+\})+$", "", p).rsplit("::", 1)[0]
+
+
+def _adt_fields(facts, path):
+    for r in facts.records("adt", IFTC):
+        if r.get("path") == path and r.get("variants"):
+            return r["variants"][0][1]
+    return None
+
+
+def _len_of_entries(c, epath):
+    """`c` is `<Vec<E> or [E]>::len(..)` for the entry type E"""
+    return (c[0] == "call" and c[1].endswith("::len") and len(calls_of(c)) == 1 and len(c) > 4 and c[4]
+            and epath in str(c[4][0]))
+
+
+def _guarded_store(facts, dec, sbb, epath):
+    """a test `i >= entries.len() -> Err`, made for every index, precedes the store at block `sbb` of `dec`"""
     for gbb, op, a, c, t_true, t_false in _cmp_guards(dec):
         if op == "Ge":
             bail, cont = t_true, t_false
@@ -457,48 +419,181 @@ def try_rg(scc, facts):
             continue
         c = strip_casts(c)
         # the bound is exactly entries.len() (the number of entries decoded so far)
-        if not (c[0] == "call" and c[1].endswith("::len") and "entries" in show(dec, c) and len(calls_of(c)) == 1):
+        if not _len_of_entries(c, epath):
             continue
         if sbb in dec.reachable_from(bail):
             continue  # the failing edge must leave without storing
         # the guard sits in a loop that precedes the store
         if gbb in dec.reachable_from(cont) and sbb in dec.reachable_from(gbb) and gbb not in dec.reachable_from(sbb):
-            good = True
-    if not good:
-        # the same test extracted into a helper: a call that precedes the store, receives `entries.len()` as an argument and
-        # whose callee rejects (in a loop) every value >= that parameter; its Err is propagated (the store is not reachable
-        # from the call's failing side because `?` returns)
-        for cbb, t in dec.calls():
-            hb = facts.body(t.callee, _fuzzy=False)
-            if hb is None or hb.crate != dec.crate:
+            return "`i >= entries.len()` -> Err is tested in a loop before the child indices are stored"
+    # the same test as a predicate closure: `if it.any(|i| i >= max) { return Err }` / `if !it.all(|i| i < max) { return Err }`
+    # with `max` captured from entries.len(); the adaptor visits every index (it stops only to bail)
+    for cbb, t in dec.calls():
+        kind = t.callee.rsplit("::", 1)[-1]
+        if not (t.callee.startswith("core::iter::traits::iterator::Iterator::") and kind in ("any", "all") and len(t.args) == 2):
+            continue
+        if not (sbb in dec.reachable_from(cbb) and cbb not in dec.reachable_from(sbb)):
+            continue
+        ce = strip_casts(expr_of(dec, t.args[1]))
+        if not (ce[0] == "agg" and ce[1][0] == "closure" and len(ce[2]) == 1):
+            continue
+        cap = strip_casts(ce[2][0])
+        if cap[0] == "ref":
+            cap = strip_casts(cap[1])
+        if not _len_of_entries(cap, epath):
+            continue
+        clo = facts.body(ce[1][1], _fuzzy=False)
+        if clo is None or len(clo.return_blocks()) != 1 or len(clo.blocks) != 1:
+            continue
+        re_ = strip_casts(expr_of(clo, ["m", [0, []]]))
+        if not (re_[0] == "bin" and re_[2] == ("param", 2) and re_[3][0] == "proj" and re_[3][1] == ("param", 1)
+                and [x for x in re_[3][2] if x != "*"] and all(x == "*" or (isinstance(x, tuple) and x[0] == "f" and x[1] == 0) for x in re_[3][2])):
+            continue
+        if (kind, re_[1]) not in (("any", "Ge"), ("all", "Lt")):
+            continue
+        nb = t.targets[0] if t.targets else None
+        sw = dec.blocks[nb].term if nb is not None else None
+        if sw is None or sw.kind != "switch" or len(sw.d[2]) != 1 or str(sw.d[2][0][0]) != "0":
+            continue
+        on_false, on_true = sw.d[2][0][1], sw.d[3]
+        bail, cont = (on_true, on_false) if kind == "any" else (on_false, on_true)
+        if sbb in dec.reachable_from(bail) or sbb not in dec.reachable_from(cont):
+            continue
+        return (f"`{kind}(|i| i {'>=' if kind == 'any' else '<'} entries.len())` decides for every index whether to leave with Err "
+                f"before the child indices are stored")
+    # the same test extracted into a helper: a call that precedes the store, receives `entries.len()` as an argument and
+    # whose callee rejects (in a loop) every value >= that parameter; its Err is propagated (the store is not reachable
+    # from the call's failing side because `?` returns)
+    for cbb, t in dec.calls():
+        hb = facts.body(t.callee, _fuzzy=False)
+        if hb is None or hb.crate != dec.crate:
+            continue
+        if not (sbb in dec.reachable_from(cbb) and cbb not in dec.reachable_from(sbb)):
+            continue
+        for k, a in enumerate(t.args):
+            e = strip_casts(expr_of(dec, a))
+            if not _len_of_entries(e, epath):
                 continue
-            if not (sbb in dec.reachable_from(cbb) and cbb not in dec.reachable_from(sbb)):
-                continue
-            for k, a in enumerate(t.args):
-                e = strip_casts(expr_of(dec, a))
-                if not (e[0] == "call" and e[1].endswith("::len") and "entries" in show(dec, e) and len(calls_of(e)) == 1):
+            for gbb, op, a2, c2, t_true, t_false in _cmp_guards(hb):
+                if op == "Ge":
+                    bail, cont = t_true, t_false
+                elif op == "Lt":
+                    bail, cont = t_false, t_true
+                else:
                     continue
-                for gbb, op, a2, c2, t_true, t_false in _cmp_guards(hb):
-                    if op == "Ge":
-                        bail, cont = t_true, t_false
-                    elif op == "Lt":
-                        bail, cont = t_false, t_true
-                    else:
-                        continue
-                    c2 = strip_casts(c2)
-                    if c2 != ("param", k + 1):
-                        continue
-                    # the failing edge returns Err, the passing edge loops
-                    from ..typestate import ret_class
-                    bail_rets = [rb for rb in hb.return_blocks() if rb in hb.reachable_from(bail)]
-                    if gbb in hb.reachable_from(cont) and bail_rets and gbb not in hb.reachable_from(bail):
-                        good = True
-        if good:
-            why.append("decode_format2_entry(): a helper called before entry.child_indices is stored rejects, in a loop, every "
-                       "index >= its parameter, which receives entries.len()")
-            return "R-g memoised evaluation over strictly prior indices: " + "; ".join(why) + " => recursion depth <= 2"
-        return None
-    why.append("decode_format2_entry(): `i >= entries.len()` -> Err is tested in a loop before entry.child_indices is stored")
+                c2 = strip_casts(c2)
+                if c2 != ("param", k + 1):
+                    continue
+                # the failing edge returns Err, the passing edge loops
+                bail_rets = [rb for rb in hb.return_blocks() if rb in hb.reachable_from(bail)]
+                if gbb in hb.reachable_from(cont) and bail_rets and gbb not in hb.reachable_from(bail):
+                    return ("a helper called before the child indices are stored rejects, in a loop, every index >= its "
+                            "parameter, which receives entries.len()")
+    return None
+
+
+def try_rg(scc, facts):
+    owners = {_rg_owner(p) for p in scc.paths}
+    if len(owners) != 1:
+        return _rg_fail(1)
+    own = owners.pop()
+    if not own.startswith(IFTC + "::"):
+        return _rg_fail(2)
+    memo_adt = re.sub(r"::<.*>$", "", own)
+    mfields = _adt_fields(facts, memo_adt)
+    if not mfields:
+        return _rg_fail(3)
+    # the memo's HashMap<K, _> and its slice of entries
+    ktys = [m.group(1) for _, ty, _ in mfields for m in [re.match(r"std::collections::hash::map::HashMap<(\w+), ", ty)] if m]
+    etys = [m.group(1) for _, ty, _ in mfields for m in [re.match(r"&(?:'\w+ )?\[(.+)\]$", ty)] if m]
+    if len(ktys) != 1 or len(etys) != 1:
+        return _rg_fail(4)
+    kty, epath = ktys[0], etys[0]
+    why = []
+    # (1) memo: cache.get hit returns before compute; cache.insert follows compute on every path to return
+    ib = comps = gets = ins = None
+    for p_, b_ in scc.bodies.items():
+        g_ = [(bb, t) for bb, t in b_.calls() if t.callee.endswith("HashMap::<K, V, S, A>::get")]
+        i_ = [(bb, t) for bb, t in b_.calls() if t.callee.endswith("HashMap::<K, V, S, A>::insert")]
+        c_ = [(bb, t) for bb, t in b_.calls() if t.callee in scc.bodies and t.callee != p_]
+        if len(g_) == 1 and len(i_) == 1 and len(c_) == 1:
+            if ib is not None:
+                return _rg_fail(5)
+            ib, gets, ins, comps = b_, g_, i_, c_
+    if ib is None:
+        return _rg_fail(6)
+    if not ib.dominates(gets[0][0], comps[0][0]):
+        return _rg_fail(7)
+    # key of get and insert is the same parameter
+    ge = strip_casts(expr_of(ib, gets[0][1].args[1]))
+    ie = strip_casts(expr_of(ib, ins[0][1].args[1]))
+    gk = ge[1] if ge[0] == "ref" else None
+    if gk is not None and gk[0] == "proj" and not gk[2]:
+        gk = gk[1]
+    if not (gk is not None and gk[0] == "param" and ie == gk):
+        return _rg_fail(8)
+    # every return reachable from compute passes insert
+    rets = [r for r in ib.return_blocks() if r in ib.reachable_from(comps[0][0])]
+    if not rets or not all(ib.dominates(ins[0][0], r) or _passes(ib, comps[0][0], r, ins[0][0]) for r in rets):
+        return _rg_fail(9)
+    mname = ib.path.split("::")[-1]
+    why.append(f"{mname}(): the HashMap lookup of the key parameter dominates the call into the cycle and the insert of the same key "
+               f"lies on every path from it to return")
+    # (2) the only driver evaluates every index in increasing order before any `continue`
+    drvs = [ob for ob in facts.all_bodies(IFTC) if ob.path not in scc.bodies and _rg_owner(ob.path) != own
+            and any(t.callee == ib.path for _, t in ob.calls())]
+    if len(drvs) != 1:
+        return _rg_fail(10)
+    drv = drvs[0]
+    dcalls = [(bb, t) for bb, t in drv.calls() if t.callee == ib.path]
+    if len(dcalls) != 1:
+        return _rg_fail(11)
+    cb, ct = dcalls[0]
+    nexts = [(bb, t) for bb, t in drv.calls() if t.callee.endswith("Enumerate<I> as core::iter::traits::iterator::Iterator>::next") and cb in drv.reachable_from(bb)]
+    if len(nexts) != 1:
+        return _rg_fail(12)
+    hb = nexts[0][0]
+    # all back edges into the loop header come from blocks dominated by the memo call
+    preds = drv.preds()
+    loop_preds = [p for p in preds[hb] if p in drv.reachable_from(hb)]
+    if not loop_preds or not all(drv.dominates(cb, p) for p in loop_preds):
+        return _rg_fail(13)
+    # the index argument is the enumerate counter
+    s = show(drv, strip_casts(expr_of(drv, ct.args[1])))
+    if "next(" not in s or "as Some" not in s or not s.endswith(".0"):
+        return _rg_fail(14)
+    why.append(f"{drv.path.split('::')[-1]}(): {mname}(order, ..) is evaluated for every enumerate() index before any "
+               "`continue` (the call dominates every back edge of the loop)")
+    # the memo type is constructed only there
+    cons = []
+    for ob in facts.all_bodies(IFTC):
+        for bb2, adt, variant, ops, st in adt_aggregates(ob, range(len(ob.blocks))):
+            if adt == memo_adt:
+                cons.append(ob.path)
+    if cons != [drv.path]:
+        return _rg_fail(15)
+    why.append(f"{memo_adt.split('::')[-1]} is constructed only in that function")
+    # (3) child indices refer to prior entries only: every store to a Vec<key> field of the entry type is guarded
+    efields = _adt_fields(facts, epath)
+    if not efields:
+        return _rg_fail(16)
+    cfields = {n for n, ty, _ in efields if ty == f"alloc::vec::Vec<{kty}>"}
+    if not cfields:
+        return _rg_fail(17)
+    nstores, whys3 = 0, set()
+    for ob in facts.all_bodies(IFTC):
+        if ob.path in scc.bodies:
+            continue
+        for bb, j, st in ob.stmts():
+            if st[0] == "A" and st[1][1] and st[1][1][-1][0] == "f" and st[1][1][-1][2] in cfields:
+                nstores += 1
+                w3 = _guarded_store(facts, ob, bb, epath)
+                if w3 is None:
+                    return _rg_fail(18)
+                whys3.add(f"{ob.path.split('::')[-1]}(): {w3}")
+    if nstores == 0:
+        return _rg_fail(19)
+    why.extend(sorted(whys3))
     return "R-g memoised evaluation over strictly prior indices: " + "; ".join(why) + " => recursion depth <= 2"
 
 
